@@ -1837,6 +1837,14 @@ func isValidUploadID(id string) bool {
 	return id != "" && id != "." && id != ".." && !strings.ContainsAny(id, "/\x00")
 }
 
+// isValidVersionID reports whether a version id given by a client can be
+// the name of an entry in an object's version directory. Version ids are
+// joined into file system paths: anything with a path separator or a dot
+// segment would be resolved somewhere else
+func isValidVersionID(id string) bool {
+	return id != "." && id != ".." && !strings.ContainsAny(id, "/\x00")
+}
+
 func (p *Posix) retrieveUploadId(bucket, object string) (string, [32]byte, error) {
 	sum := sha256.Sum256([]byte(object))
 	objdir := filepath.Join(bucket, metaTmpMultipartDir, fmt.Sprintf("%x", sum))
@@ -2557,7 +2565,7 @@ func (p *Posix) UploadPartCopy(ctx context.Context, upi *s3.UploadPartCopyInput)
 	vEnabled := p.isBucketVersioningEnabled(vStatus)
 
 	if srcVersionId != "" {
-		if !p.versioningEnabled() || !vEnabled {
+		if !p.versioningEnabled() || !vEnabled || !isValidVersionID(srcVersionId) {
 			return s3response.CopyPartResult{}, s3err.GetAPIError(s3err.ErrInvalidVersionId)
 		}
 		vId, err := p.meta.RetrieveAttribute(nil, srcBucket, srcObject, versionIdKey)
@@ -3073,6 +3081,10 @@ func (p *Posix) DeleteObject(ctx context.Context, input *s3.DeleteObjectInput) (
 		return nil, err
 	}
 
+	if !isValidVersionID(getString(input.VersionId)) {
+		return nil, s3err.GetAPIError(s3err.ErrInvalidVersionId)
+	}
+
 	// Directory objects can't have versions
 	if !isDir && p.versioningEnabled() && vStatus != "" {
 		if getString(input.VersionId) == "" {
@@ -3459,7 +3471,7 @@ func (p *Posix) GetObject(_ context.Context, input *s3.GetObjectInput) (*s3.GetO
 		versionId = *input.VersionId
 	}
 
-	if !p.versioningEnabled() && versionId != "" {
+	if (!p.versioningEnabled() && versionId != "") || !isValidVersionID(versionId) {
 		//TODO: Maybe we need to return our custom error here?
 		return nil, s3err.GetAPIError(s3err.ErrInvalidVersionId)
 	}
@@ -3687,7 +3699,7 @@ func (p *Posix) HeadObject(ctx context.Context, input *s3.HeadObjectInput) (*s3.
 	}
 	versionId := backend.GetStringFromPtr(input.VersionId)
 
-	if !p.versioningEnabled() && versionId != "" {
+	if (!p.versioningEnabled() && versionId != "") || !isValidVersionID(versionId) {
 		//TODO: Maybe we need to return our custom error here?
 		return nil, s3err.GetAPIError(s3err.ErrInvalidVersionId)
 	}
@@ -3957,7 +3969,7 @@ func (p *Posix) CopyObject(ctx context.Context, input s3response.CopyObjectInput
 	vEnabled := p.isBucketVersioningEnabled(vStatus)
 
 	if srcVersionId != "" {
-		if !p.versioningEnabled() || !vEnabled {
+		if !p.versioningEnabled() || !vEnabled || !isValidVersionID(srcVersionId) {
 			return nil, s3err.GetAPIError(s3err.ErrInvalidVersionId)
 		}
 		vId, err := p.meta.RetrieveAttribute(nil, srcBucket, srcObject, versionIdKey)
@@ -4773,7 +4785,7 @@ func (p *Posix) PutObjectLegalHold(_ context.Context, bucket, object, versionId 
 	}
 
 	if versionId != "" {
-		if !p.versioningEnabled() {
+		if !p.versioningEnabled() || !isValidVersionID(versionId) {
 			//TODO: Maybe we need to return our custom error here?
 			return s3err.GetAPIError(s3err.ErrInvalidVersionId)
 		}
@@ -4816,7 +4828,7 @@ func (p *Posix) GetObjectLegalHold(_ context.Context, bucket, object, versionId 
 	}
 
 	if versionId != "" {
-		if !p.versioningEnabled() {
+		if !p.versioningEnabled() || !isValidVersionID(versionId) {
 			//TODO: Maybe we need to return our custom error here?
 			return nil, s3err.GetAPIError(s3err.ErrInvalidVersionId)
 		}
@@ -4864,7 +4876,7 @@ func (p *Posix) PutObjectRetention(_ context.Context, bucket, object, versionId 
 	}
 
 	if versionId != "" {
-		if !p.versioningEnabled() {
+		if !p.versioningEnabled() || !isValidVersionID(versionId) {
 			//TODO: Maybe we need to return our custom error here?
 			return s3err.GetAPIError(s3err.ErrInvalidVersionId)
 		}
@@ -4936,7 +4948,7 @@ func (p *Posix) GetObjectRetention(_ context.Context, bucket, object, versionId 
 	}
 
 	if versionId != "" {
-		if !p.versioningEnabled() {
+		if !p.versioningEnabled() || !isValidVersionID(versionId) {
 			//TODO: Maybe we need to return our custom error here?
 			return nil, s3err.GetAPIError(s3err.ErrInvalidVersionId)
 		}
